@@ -19,6 +19,11 @@ import Mathlib.Tactic.FinCases
 import Mathlib.Analysis.InnerProductSpace.PiL2
 import Mathlib.Analysis.InnerProductSpace.ProdL2
 import Mathlib.Geometry.Euclidean.Angle.Unoriented.Basic
+import Mathlib.Analysis.SpecialFunctions.Gamma.Basic
+import Mathlib.Analysis.SpecialFunctions.ImproperIntegrals
+import Mathlib.Analysis.SpecialFunctions.Integrability.Basic
+import Mathlib.MeasureTheory.Measure.Lebesgue.Basic
+import Mathlib.MeasureTheory.Constructions.BorelSpace.Basic
 
 namespace GSV.Props.C02
 open GSV GSV.Model.Validity GSV.Lemmas.Psd
@@ -387,6 +392,268 @@ theorem gaussian_model_psd (s ℓ : ℝ) : IsPSDRadial V fun r => Real.exp (-((s
   rw [mul_pow, sq_abs]; ring
 
 theorem gaussian_cor_zero (s ℓ : ℝ) : Real.exp (-((s * 0 / ℓ) ^ 2)) = 1 := by simp
+
+/-! ### non-negative spectrum ⇒ positive semi-definite (the direction of Bochner's theorem the property uses) -/
+
+section spectral
+open MeasureTheory
+
+/-- a single wave: `cos⟨k, x − y⟩` is PSD (it is `cos a cos b + sin a sin b`) -/
+theorem psd_cos (k : V) : IsPSDFun fun r : V => Real.cos (inner ℝ k r) := by
+  have := IsPSDKernel.cos_sub (fun a : V => (inner ℝ k a : ℝ))
+  unfold IsPSDFun
+  convert this using 3 with a b
+  show Real.cos (inner ℝ k (a - b)) = _
+  rw [inner_sub_right]
+
+/-- **Discrete spectrum.**  `ρ(r) = Σ_j w_j cos⟨k_j, r⟩` with non-negative weights is PSD — in particular
+    the covariance `(var/N) Σ_j cos⟨k_j, x − y⟩` realised by the randomization method for ANY set of modes. -/
+theorem psd_of_spectral_sum {ι : Type*} (s : Finset ι) (w : ι → ℝ) (k : ι → V) (hw : ∀ j ∈ s, 0 ≤ w j) :
+    IsPSDFun fun r : V => ∑ j ∈ s, w j * Real.cos (inner ℝ (k j) r) :=
+  psd_finset_sum s fun j hj => psd_scale (psd_cos (k j)) (hw j hj)
+
+/-- **Non-negative spectral density ⇒ PSD.**  If `S ≥ 0` is integrable against a measure `μ` on the wave
+    vectors (Lebesgue measure for a spectral density, any finite measure with `S = 1` for a spectral
+    measure), then `ρ(r) = ∫ S(k) cos⟨k, r⟩ dμ(k)` is a positive semi-definite function. -/
+theorem psd_of_spectral_density [MeasurableSpace V] [BorelSpace V] [SecondCountableTopology V]
+    (μ : Measure V) {S : V → ℝ} (hS : ∀ k, 0 ≤ S k) (hint : Integrable S μ) :
+    IsPSDFun fun r : V => ∫ k, S k * Real.cos (inner ℝ k r) ∂μ := by
+  unfold IsPSDFun
+  refine IsPSDKernel.integral μ (F := fun k a b => S k * Real.cos (inner ℝ k (a - b))) ?_ ?_
+  · exact Filter.Eventually.of_forall fun k => psd_scale (psd_cos k) (hS k)
+  · intro a b
+    have hc : Continuous fun k : V => Real.cos (inner ℝ k (a - b)) :=
+      Real.continuous_cos.comp (continuous_id.inner continuous_const)
+    refine (hint.mul_bdd (c := 1) hc.aestronglyMeasurable ?_)
+    exact Filter.Eventually.of_forall fun k => by simpa using Real.abs_cos_le_one _
+
+end spectral
+
+/-! ### the Rational (rational-quadratic) family as a Gamma mixture of Gaussians -/
+
+section rational
+open MeasureTheory Set
+
+/-- `(1 + u)^(−α) = Γ(α)⁻¹ ∫₀^∞ t^(α−1) e^{−(1+u) t} dt` -/
+theorem rational_mixture {α u : ℝ} (hα : 0 < α) (hu : 0 ≤ u) :
+    (1 + u) ^ (-α) = (Real.Gamma α)⁻¹ * ∫ t in Ioi (0:ℝ), t ^ (α - 1) * Real.exp (-((1 + u) * t)) := by
+  have h1 : 0 < 1 + u := by linarith
+  rw [Real.integral_rpow_mul_exp_neg_mul_Ioi hα h1]
+  have hΓ : Real.Gamma α ≠ 0 := (Real.Gamma_pos_of_pos hα).ne'
+  rw [one_div, Real.inv_rpow h1.le, ← Real.rpow_neg h1.le]
+  field_simp
+
+/-- **The Rational model** `ρ(r) = (1 + r²/α)^(−α)` is a valid correlation in every dimension for every
+    `α > 0` (GSTools admits `0.5 ≤ α ≤ 50`). -/
+theorem rational_psd {α : ℝ} (hα : 0 < α) : IsPSDRadial V fun r => (1 + r ^ 2 / α) ^ (-α) := by
+  have hΓ : 0 < Real.Gamma α := Real.Gamma_pos_of_pos hα
+  -- the mixture kernel
+  have hmix : IsPSDKernel fun a b : V =>
+      ∫ t in Ioi (0:ℝ), t ^ (α - 1) * Real.exp (-((1 + ‖a - b‖ ^ 2 / α) * t)) := by
+    refine IsPSDKernel.integral _ ?_ ?_
+    · refine (ae_restrict_iff' measurableSet_Ioi).2 (Filter.Eventually.of_forall fun t ht => ?_)
+      have ht0 : (0:ℝ) < t := ht
+      -- t^(α-1) e^{-t} · exp(−(√(t/α) ‖a−b‖)²)
+      have hg := psd_scale (psd_radial_scale (gaussian_psd (V := V)) (Real.sqrt_nonneg (t / α)))
+        (var := t ^ (α - 1) * Real.exp (-t)) (by positivity)
+      unfold IsPSDRadial IsPSDFun at hg
+      convert hg using 3 with a b
+      show _ = t ^ (α - 1) * Real.exp (-t) * Real.exp (-(√(t / α) * ‖a - b‖) ^ 2)
+      rw [mul_assoc, ← Real.exp_add, mul_pow, Real.sq_sqrt (by positivity)]
+      congr 2; field_simp; ring
+    · intro a b
+      have h1 : 0 < 1 + ‖a - b‖ ^ 2 / α := by positivity
+      refine Integrable.of_integral_ne_zero ?_
+      rw [Real.integral_rpow_mul_exp_neg_mul_Ioi hα h1]
+      positivity
+  have := hmix.smul (inv_nonneg.2 hΓ.le)
+  unfold IsPSDRadial IsPSDFun
+  convert this using 3 with a b
+  exact rational_mixture hα (by positivity)
+
+/-- **The Rational model of GSTools** `ρ(r) = (1 + (s r/ℓ)²/α)^(−α)` -/
+theorem rational_model_psd {α : ℝ} (hα : 0 < α) (s ℓ : ℝ) :
+    IsPSDRadial V fun r => (1 + (s * r / ℓ) ^ 2 / α) ^ (-α) := by
+  have := psd_radial_scale (rational_psd (V := V) hα) (abs_nonneg (s / ℓ))
+  convert this using 3 with r
+  rw [mul_pow, sq_abs]; ring
+
+end rational
+
+/-! ### scale mixtures: the Integral model and the truncated power-law (TPL) superpositions -/
+
+section mixtures
+open MeasureTheory Set
+
+/-- **Scale mixtures.**  If the profile `φ` is valid on `V`, then so is every superposition
+    `r ↦ ∫ w(t) φ(c(t) r) dμ(t)` with non-negative weights `w` and scalings `c`. -/
+theorem psd_scale_mixture {T : Type*} [MeasurableSpace T] (μ : Measure T) {φ : ℝ → ℝ} (h : IsPSDRadial V φ)
+    (w c : T → ℝ) (hw : ∀ᵐ t ∂μ, 0 ≤ w t) (hc : ∀ᵐ t ∂μ, 0 ≤ c t)
+    (hint : ∀ r : ℝ, 0 ≤ r → Integrable (fun t => w t * φ (c t * r)) μ) :
+    IsPSDRadial V fun r => ∫ t, w t * φ (c t * r) ∂μ := by
+  unfold IsPSDRadial IsPSDFun
+  refine IsPSDKernel.integral μ (F := fun t a b => w t * φ (c t * ‖a - b‖)) ?_ fun a b => hint _ (norm_nonneg _)
+  filter_upwards [hw, hc] with t hwt hct
+  exact psd_scale (psd_radial_scale h hct) hwt
+
+/-- **The Integral model** `ρ(r) = (ν/2) E_{1+ν/2}(r²)`, with the generalised exponential integral in its
+    defining form `E_s(x) = ∫₁^∞ t^{−s} e^{−x t} dt`, is a valid correlation in every dimension for `ν > 0`:
+    it is a mixture of Gaussians. -/
+theorem integral_model_psd {ν : ℝ} (hν : 0 < ν) :
+    IsPSDRadial V fun r => ν / 2 * ∫ t in Ioi (1:ℝ), t ^ (-(1 + ν / 2)) * Real.exp (-(r ^ 2 * t)) := by
+  have hmix := psd_scale_mixture (V := V) (volume.restrict (Ioi (1:ℝ))) (gaussian_psd (V := V))
+    (fun t => t ^ (-(1 + ν / 2))) (fun t => Real.sqrt t) ?_ ?_ ?_
+  · have := psd_scale hmix (var := ν / 2) (by positivity)
+    unfold IsPSDRadial at this ⊢
+    convert this using 3 with v
+    show _ = ∫ (t : ℝ) in Ioi 1, t ^ (-(1 + ν / 2)) * Real.exp (-(√t * ‖v‖) ^ 2)
+    refine setIntegral_congr_fun (measurableSet_Ioi (a := (1:ℝ))) fun t ht => ?_
+    have ht0 : (0:ℝ) ≤ t := le_trans zero_le_one (le_of_lt ht)
+    show _ = t ^ (-(1 + ν / 2)) * Real.exp (-(Real.sqrt t * ‖v‖) ^ 2)
+    rw [mul_pow, Real.sq_sqrt ht0]; ring_nf
+  · refine (ae_restrict_iff' measurableSet_Ioi).2 (Filter.Eventually.of_forall fun t ht => ?_)
+    exact Real.rpow_nonneg (le_trans zero_le_one (le_of_lt ht)) _
+  · exact Filter.Eventually.of_forall fun t => Real.sqrt_nonneg t
+  · intro r _
+    have hi : IntegrableOn (fun t : ℝ => t ^ (-(1 + ν / 2))) (Ioi 1) :=
+      integrableOn_Ioi_rpow_of_lt (by linarith) zero_lt_one
+    refine Integrable.mul_bdd (c := 1) hi ?_ (Filter.Eventually.of_forall fun t => ?_)
+    · exact (Real.continuous_exp.comp ((Real.continuous_sqrt.mul continuous_const).pow 2).neg).aestronglyMeasurable
+    · rw [Real.norm_eq_abs, abs_of_pos (Real.exp_pos _), Real.exp_le_one_iff]
+      exact neg_nonpos.2 (sq_nonneg _)
+
+/-- **Truncated power-law superposition** (`TPLCovModel`): `C(r) = ∫_{ℓ_low}^{ℓ_up} λ^{2H−1} φ(r/λ) dλ`
+    is valid wherever the mode profile `φ` is, for every Hurst exponent and `0 ≤ ℓ_low`
+    (integrability is a hypothesis here; discharged for Gaussian modes below). -/
+theorem tpl_psd_of_mode {φ : ℝ → ℝ} (h : IsPSDRadial V φ) (H lo up : ℝ) (hlo : 0 ≤ lo)
+    (hint : ∀ r : ℝ, 0 ≤ r → IntegrableOn (fun lam : ℝ => lam ^ (2 * H - 1) * φ (lam⁻¹ * r)) (Ioc lo up)) :
+    IsPSDRadial V fun r => ∫ lam in Ioc lo up, lam ^ (2 * H - 1) * φ (lam⁻¹ * r) := by
+  refine psd_scale_mixture (volume.restrict (Ioc lo up)) h (fun lam => lam ^ (2 * H - 1)) (fun lam => lam⁻¹)
+    ?_ ?_ hint
+  · refine (ae_restrict_iff' measurableSet_Ioc).2 (Filter.Eventually.of_forall fun t ht => ?_)
+    exact Real.rpow_nonneg (hlo.trans ht.1.le) _
+  · refine (ae_restrict_iff' measurableSet_Ioc).2 (Filter.Eventually.of_forall fun t ht => ?_)
+    exact inv_nonneg.2 (hlo.trans ht.1.le)
+
+/-- **TPLGaussian** (unnormalised; the normalisation `2H / (ℓ_up^{2H} − ℓ_low^{2H})` is a positive factor):
+    valid in every dimension for every `H > 0` and `0 ≤ ℓ_low ≤ ℓ_up`. -/
+theorem tpl_gaussian_psd {H lo up : ℝ} (hH : 0 < H) (hlo : 0 ≤ lo) (hle : lo ≤ up) :
+    IsPSDRadial V fun r => ∫ lam in Ioc lo up, lam ^ (2 * H - 1) * Real.exp (-((lam⁻¹ * r) ^ 2)) := by
+  refine tpl_psd_of_mode (gaussian_psd (V := V)) H lo up hlo fun r _ => ?_
+  have hi : IntegrableOn (fun lam : ℝ => lam ^ (2 * H - 1)) (Ioc lo up) := by
+    have h0 : IntegrableOn (fun lam : ℝ => lam ^ (2 * H - 1)) (Ioc 0 up) :=
+      (intervalIntegrable_iff_integrableOn_Ioc_of_le (hlo.trans hle)).1
+        (intervalIntegral.intervalIntegrable_rpow' (by linarith))
+    exact h0.mono_set (Ioc_subset_Ioc_left hlo)
+  refine Integrable.mul_bdd (c := 1) hi ?_ (Filter.Eventually.of_forall fun t => ?_)
+  · refine Measurable.aestronglyMeasurable ?_
+    exact Real.measurable_exp.comp ((measurable_inv.mul measurable_const).pow_const 2).neg
+  · rw [Real.norm_eq_abs, abs_of_pos (Real.exp_pos _), Real.exp_le_one_iff]
+    exact neg_nonpos.2 (sq_nonneg _)
+
+end mixtures
+
+/-! ### the Linear (triangle) model on the line — and why `Linear.check_dim` stops at `d = 1` is literature -/
+
+section triangle
+open MeasureTheory Set
+
+/-- **Linear model in 1-D** (= HyperSpherical in `d = 1`, SuperSpherical with `ν = 0`, TPLSimple with `ν = 1`):
+    `max(1 − |r|, 0)` is the autocorrelation of the indicator of `[0, 1]`, hence PSD on `ℝ`. -/
+theorem linear_psd_1d : IsPSDFun fun r : ℝ => max (1 - |r|) 0 := by
+  have hF : ∀ t : ℝ, IsPSDKernel fun a b : ℝ =>
+      (Icc (0:ℝ) 1).indicator (fun _ => (1:ℝ)) (t + a) * (Icc (0:ℝ) 1).indicator (fun _ => (1:ℝ)) (t + b) :=
+    fun t => IsPSDKernel.of_feature fun a => (Icc (0:ℝ) 1).indicator (fun _ => (1:ℝ)) (t + a)
+  have key : ∀ a b t : ℝ,
+      (Icc (0:ℝ) 1).indicator (fun _ => (1:ℝ)) (t + a) * (Icc (0:ℝ) 1).indicator (fun _ => (1:ℝ)) (t + b)
+        = (Icc (max (-a) (-b)) (min (1 - a) (1 - b))).indicator (fun _ => (1:ℝ)) t := by
+    intro a b t
+    simp only [indicator_apply, mem_Icc, max_le_iff, le_min_iff]
+    by_cases h1 : 0 ≤ t + a ∧ t + a ≤ 1 <;> by_cases h2 : 0 ≤ t + b ∧ t + b ≤ 1
+    · rw [if_pos h1, if_pos h2, if_pos ⟨⟨by linarith [h1.1], by linarith [h2.1]⟩, ⟨by linarith [h1.2], by linarith [h2.2]⟩⟩]
+      norm_num
+    · have hn : ¬ ((-a ≤ t ∧ -b ≤ t) ∧ (t ≤ 1 - a ∧ t ≤ 1 - b)) := by
+        rintro ⟨⟨_, h3⟩, ⟨_, h4⟩⟩; exact h2 ⟨by linarith, by linarith⟩
+      rw [if_pos h1, if_neg h2, if_neg hn]; norm_num
+    · have hn : ¬ ((-a ≤ t ∧ -b ≤ t) ∧ (t ≤ 1 - a ∧ t ≤ 1 - b)) := by
+        rintro ⟨⟨h3, _⟩, ⟨h4, _⟩⟩; exact h1 ⟨by linarith, by linarith⟩
+      rw [if_neg h1, if_neg hn]; norm_num
+    · have hn : ¬ ((-a ≤ t ∧ -b ≤ t) ∧ (t ≤ 1 - a ∧ t ≤ 1 - b)) := by
+        rintro ⟨⟨h3, _⟩, ⟨h4, _⟩⟩; exact h1 ⟨by linarith, by linarith⟩
+      rw [if_neg h1, if_neg hn]; norm_num
+  have hmix := IsPSDKernel.integral (volume : Measure ℝ) (Filter.Eventually.of_forall hF) (fun a b => by
+    simp_rw [key a b]
+    exact (integrable_indicator_iff measurableSet_Icc).2 (integrableOn_const (by simp)))
+  unfold IsPSDFun
+  convert hmix using 3 with a b
+  simp_rw [key a b]
+  rw [integral_indicator measurableSet_Icc, setIntegral_const, Measure.real, Real.volume_Icc,
+    ENNReal.toReal_ofReal', smul_eq_mul, mul_one]
+  congr 1
+  rcases le_total a b with h | h
+  · rw [max_eq_left (by linarith), min_eq_right (by linarith), abs_of_nonpos (by linarith)]; ring
+  · rw [max_eq_right (by linarith), min_eq_left (by linarith), abs_of_nonneg (by linarith)]; ring
+
+end triangle
+
+/-! ## (5) end to end: accepted by the code ⇒ every covariance matrix is PSD (Gaussian, Rational) -/
+
+section endtoend
+open Classical
+
+/-- a profile valid on `V` is valid on every space that embeds isometrically into `V`
+    ("valid in all lower dimensions") -/
+theorem psd_radial_of_isometry {W : Type*} [NormedAddCommGroup W] [NormedSpace ℝ W] {φ : ℝ → ℝ}
+    (h : IsPSDRadial V φ) (ι : W →ₗᵢ[ℝ] V) : IsPSDRadial W φ := by
+  have := psd_linear_map h ι.toLinearMap
+  simpa [IsPSDRadial, LinearIsometry.norm_map] using this
+
+/-- **Gaussian, end to end.**  If the code accepts `Gaussian(dim=d, var, len_scale, nugget)` then, for every
+    anisotropy/rotation matrix `A` and rescale factor `s`, the function
+    `var · exp(−(s ‖A r‖ / len_scale)²) + nugget · [A r = 0]` is positive semi-definite on `ℝ^d`: every
+    covariance matrix the model produces on finitely many points has no negative eigenvalue. -/
+theorem accepted_gaussian_cov_psd (d : ℕ) (p : Params ℝ) (h : accepts .Gaussian d p = true) (s : ℝ)
+    (A : EuclideanSpace ℝ (Fin d) →ₗ[ℝ] EuclideanSpace ℝ (Fin d)) :
+    IsPSDFun fun r : EuclideanSpace ℝ (Fin d) =>
+      p.var * Real.exp (-((s * (‖A r‖ / p.lenScale)) ^ 2)) + p.nugget * (if A r = 0 then 1 else 0) := by
+  obtain ⟨hv, hl, hn, -⟩ := validity_table .Gaussian d p h
+  have hφ : IsPSDRadial (EuclideanSpace ℝ (Fin d)) fun t => Real.exp (-((s * t) ^ 2)) := by
+    have := gaussian_model_psd (V := EuclideanSpace ℝ (Fin d)) s 1
+    simpa using this
+  have := psd_cov_spatial hφ A (var := p.var) (nugget := p.nugget) (ℓ := p.lenScale)
+    (by simpa using hv) (by simpa using hn) (by simpa using hl)
+  exact this
+
+/-- **Rational, end to end** (shape parameter `α` taken from the accepted parameter set). -/
+theorem accepted_rational_cov_psd (d : ℕ) (p : Params ℝ) (h : accepts .Rational d p = true) (s : ℝ)
+    (A : EuclideanSpace ℝ (Fin d) →ₗ[ℝ] EuclideanSpace ℝ (Fin d)) :
+    IsPSDFun fun r : EuclideanSpace ℝ (Fin d) =>
+      p.var * (1 + (s * (‖A r‖ / p.lenScale)) ^ 2 / p.alpha) ^ (-p.alpha)
+        + p.nugget * (if A r = 0 then 1 else 0) := by
+  obtain ⟨hv, hl, hn, hα⟩ := validity_table .Rational d p h
+  have hα' : 0 < p.alpha := by simpa [litValidShape] using hα
+  have hφ : IsPSDRadial (EuclideanSpace ℝ (Fin d)) fun t => (1 + (s * t) ^ 2 / p.alpha) ^ (-p.alpha) := by
+    have := rational_model_psd (V := EuclideanSpace ℝ (Fin d)) hα' s 1
+    simpa using this
+  exact psd_cov_spatial hφ A (var := p.var) (nugget := p.nugget) (ℓ := p.lenScale)
+    (by simpa using hv) (by simpa using hn) (by simpa using hl)
+
+/-- the hypotheses of the closure theorems are satisfiable by non-trivial objects: the Gaussian profile on
+    `ℝ³`, on the sphere (Yadrenko) and in space–time -/
+example : IsPSDKernel fun a b : {x : EuclideanSpace ℝ (Fin 3) // ‖x‖ = 6371} =>
+    Real.exp (-((2 * 6371 * Real.sin (InnerProductGeometry.angle (a : EuclideanSpace ℝ (Fin 3)) b / 2)) ^ 2)) :=
+  psd_yadrenko (gaussian_psd (V := EuclideanSpace ℝ (Fin 3))) (by norm_num)
+
+example (κ : ℝ) : IsPSDKernel fun a b : EuclideanSpace ℝ (Fin 2) × ℝ =>
+    Real.exp (-(Real.sqrt (‖a.1 - b.1‖ ^ 2 + (κ * (a.2 - b.2)) ^ 2) ^ 2)) :=
+  psd_metric_time (gaussian_psd (V := WithLp 2 (EuclideanSpace ℝ (Fin 2) × ℝ))) κ
+
+example : |Real.exp (-((2:ℝ) ^ 2))| ≤ Real.exp (-((0:ℝ) ^ 2)) := by
+  have h := cor_le_one (gaussian_psd (V := ℝ)) (2 : ℝ)
+  simp at h ⊢
+  linarith [Real.exp_pos (-(2:ℝ) ^ 2), Real.exp_le_one_iff.2 (by norm_num : -(2:ℝ) ^ 2 ≤ 0)]
+
+end endtoend
 
 end families
 
